@@ -230,6 +230,17 @@ func fpToInt32(a *Term) *Term {
 	return Ite(bad, BV(0x80000000, 32), mkOp("(_ fp.to_sbv 32) RTZ", Sort{Width: 32}, "fp.to_sbv", 32, a))
 }
 
+// fpRound32 rounds a float64 to the nearest float32 (kept as a float64 term): Go's float32(x)
+func fpRound32(a *Term) *Term {
+	if a.isC {
+		return FP(float64(float32(a.f())))
+	}
+	if a.op == "fp.round32" {
+		return a
+	}
+	return intern(&Term{s: "((_ to_fp 11 53) RNE ((_ to_fp 8 24) RNE " + a.s + "))", sort: Sort{FP: true}, op: "fp.round32", args: []*Term{a}})
+}
+
 func int64ToFP(a *Term, signed bool) *Term {
 	if a.isC {
 		if signed {
